@@ -281,7 +281,8 @@ struct Gen {
     size_t target = opidx[g.below(opidx.size())]; if (lapidx && g.chance(0.4)) target = lapidx; if (xlidx && g.chance(0.5)) target = xlidx;   // the lapped seeks embed a seek and a priming read: two places for a failure to be swallowed
     static const char *kinds[] = {"EIO", "EOF0", "SHORT1", "SEEKFAIL", "TELLFAIL"};
     std::string pers = g.chance(0.5) ? "" : (g.chance(0.6) ? ":p" : fmt(":%d", (int)g.range(2, 6)));
-    if (prop == "C12" && g.chance(thorough ? 0.8 : 0.5)) {   // per-scenario enumeration of the fault position over every callback of the target op
+    if (prop == "C13" && g.chance(0.6)) target = opidx[0];   // "opens that fail": the open makes the most allocations that a failure path has to give back
+    if ((prop == "C12" && g.chance(thorough ? 0.8 : 0.5)) || (prop == "C13" && g.chance(0.5))) {   // per-scenario enumeration of the fault position over every callback of the target op
       int oi = 0, eop = 0; for (size_t q = 0; q < p.recs.size(); q++) if (p.recs[q].type == "op") { if (q == target) eop = oi; oi++; }
       p.recs[0].set("enum", std::string(kinds[g.below(5)]) + pers).set("eop", eop).set("ecap", thorough ? 600 : 120).set("ebudget", thorough ? 20000000 : 1500000);
     } else
